@@ -4,7 +4,7 @@ PROPS = {}
 PROPS["C19"] = dict(
     driver="c19",
     props_file="Props/C19.v",
-    coq_targets=["Record/Check.vo"],
+    coq_targets=["Record/Check.vo", "Record/Sound.vo"],
     check_module="Record.Check",
     check_fn="check_case",
     streams=[dict(name="main", quick=240, thorough=6000), dict(name="wrap", quick=60, thorough=1000)],
